@@ -14,6 +14,7 @@ import json
 import logging
 import multiprocessing as mp
 import os
+import re
 import sys
 import time
 import traceback
@@ -141,7 +142,8 @@ def exception_signature(exc: BaseException) -> str | None:
     if inner is None:
         return None
     mod = os.path.relpath(inner.filename, REPO_ROOT)
-    return f"exc:{type(exc).__name__}@{mod}:{inner.name}"
+    stem = re.sub(r"[0-9]+(\.[0-9]+)?(e[-+]?[0-9]+)?", "#", str(exc))[:48].strip()
+    return f"exc:{type(exc).__name__}@{mod}:{inner.name}:{stem}"
 
 
 # ------------------------------------------------------------------------------------
